@@ -215,10 +215,12 @@ def run(ctx):
         ctx.reject('TLC model check of TextScreen_MC failed: %s' % r['error'], key={'clause': 'model_check'}, data=r['out'][-4000:])
     if r['distinct'] < 1000:
         raise core.MachineryError('model check explored only %d states' % r['distinct'])
-    r = ctx.tlc('TextScreen_MC', 'TextScreen_MC_walk.cfg', workers=1, simulate='num=%d' % ctx.pick(300, 6000),
-                extra=['-depth', '41', '-seed', str(ctx.seed + 1)], tag='small-model random walks')
+    wcfg = ctx.path('walk.cfg')
+    with open(wcfg, 'w') as f:
+        f.write(open(core.SPEC + '/TextScreen_MC_walk.cfg').read().replace('NWalks = 300', 'NWalks = %d' % ctx.pick(150, 4000)).replace('Seed = 1', 'Seed = %d' % (ctx.seed % 60000)))
+    r = ctx.tlc('TextScreen_MC', wcfg, workers=1, tag='small-model random walks', timeout=1500)
     if not r['ok']:
-        ctx.reject('TLC simulation of TextScreen_MC failed: %s' % r['error'], key={'clause': 'model_check'}, data=r['out'][-3000:])
+        ctx.reject('TLC random walks of TextScreen_MC failed: %s' % r['error'], key={'clause': 'model_check'}, data=r['out'][-3000:])
     ctx.cov['states'] += r['generated']
     # 2. spec -> code: behaviours generated by TLC at the real size, replayed on the interpreter
     d = Driver(ctx)
@@ -226,10 +228,9 @@ def run(ctx):
     for (w, modes, adapter) in ((80, '{0, 1, 2}', 'cga'), (40, '{0, 1, 2, 7, 8, 9}', 'ega')):
         cfg = ctx.path('sim_%d.cfg' % w)
         with open(cfg, 'w') as f:
-            f.write('SPECIFICATION Spec\nCONSTANTS\n  TextWidths = {40, 80}\n  W = %d\n  H = 25\n  D = %d\n  Modes = %s\n'
-                    'INVARIANT Emit\nCHECK_DEADLOCK FALSE\n' % (w, 30, modes))
-        r = ctx.tlc('TextScreen_Sim', cfg, workers=1, simulate='num=%d' % ctx.pick(12, 150),
-                    extra=['-depth', '31', '-seed', str(ctx.seed * 2 + w)], tag='behaviour generation %dx25' % w)
+            f.write('SPECIFICATION Spec\nCONSTANTS\n  TextWidths = {40, 80}\n  W = %d\n  H = 25\n  D = %d\n  N = %d\n  Seed = %d\n  Modes = %s\n'
+                    'INVARIANT Emit\nCHECK_DEADLOCK FALSE\n' % (w, 30, ctx.pick(12, 150), (ctx.seed * 2 + w) % 60000, modes))
+        r = ctx.tlc('TextScreen_Sim', cfg, workers=1, tag='behaviour generation %dx25' % w, timeout=1500)
         if not r['ok']:
             raise core.MachineryError('behaviour generation failed: %s\n%s' % (r['error'], r['out'][-2000:]))
         behs = parse_behaviours(r['out'])
